@@ -180,6 +180,56 @@ def run(chk):
                           % (where, left, bad), {'row': row})
         if i in (3, 700):
             chk.sample({'release': p, 'packet': k, 'dir': d, 'id': row['id'], 'payload': payload[:40].hex()})
+    # ---- relay: a clientbound core packet decoded by the reactor's read_packet at release A and written again under
+    #      release B (same field layout there) must carry B's published id and layout
+    import socket as _socket
+    by_kind = {}
+    for item in rows:
+        row = item['row']
+        if row['dir'] == 'cb' and row['p'] not in missing:
+            by_kind.setdefault((row['k'], row['st'], item['vs']), []).append(item)
+    relayed = 0
+    for (k, st, vs), items in sorted(by_kind.items()):
+        items.sort(key=lambda it: releases.index(it['row']['p']))
+        for a, b in zip(items, items[1:] + items[:1]):
+            ra, rb = a['row'], b['row']
+            if ra['fields'] != rb['fields'] or ra['p'] == rb['p']:      # same fields, types and values at both releases
+                continue
+            if any(f[1][0] == 'Raw' for f in ra['fields']):
+                continue
+            ca = conns.get(ra['p']) or conns.setdefault(ra['p'], conn.Connection('localhost', 25565, allowed_versions={ra['p']}))
+            s1, s2 = _socket.socketpair()
+            try:
+                pa = bytes(a['payload'])
+                s1.sendall(bytes(core.limbs(len(pa)) and [d | 0x80 for d in core.limbs(len(pa))[:-1]] + [core.limbs(len(pa))[-1]] or [0]) + pa)
+                fo = s2.makefile('rb', 0)
+                got_pkt = reactors[st](ca).read_packet(fo, timeout=2)
+                fo.close()
+            except Exception as e:      # noqa
+                got_pkt = e
+            finally:
+                s1.close()
+                s2.close()
+            relayed += 1
+            chk.evaluations += 1
+            where = '%s cb/%s decoded by read_packet at release %d and written under release %d' % (k, st, ra['p'], rb['p'])
+            if not isinstance(got_pkt, bind[('cb', st, k)]):
+                chk.violation('ref:relay:decode:%s' % k, '%s: read_packet returned %r' % (where, got_pkt), {'row': ra})
+                continue
+            got_pkt.context = ConnectionContext(protocol_version=rb['p'])
+            sink = Sink()
+            try:
+                got_pkt.write(sink)
+                data = sink.value()
+                stx = CountingStream(data)
+                T.VarInt.read(stx)
+                out = data[stx.pos:]
+            except Exception as e:      # noqa
+                out = repr(e).encode()
+            if out != bytes(b['payload']):
+                chk.violation('ref:relay:%s' % k, '%s: gives %s, the published frame is %s' % (where, out[:40].hex(), bytes(b['payload'])[:40].hex()),
+                              {'from': ra['p'], 'to': rb['p'], 'packet': k})
+    chk.extra['relayed_between_releases'] = relayed
     chk.extra['rows'] = len(rows)
     chk.extra['releases'] = releases
     chk.extra['rows_per_release'] = per_release
